@@ -567,6 +567,38 @@ def cli_fault_runs(ctx, workdir):
                 ctx.violation("nuspacesim run", "leftover-unreadable:after-raise", f"the file left after the failure is not a readable FITS table: {type(ex).__name__}", case)
 
 
+def worker_thread_run(ctx, workdir):
+    """a simulation with intermediate writing started from a worker thread (a scan driven by a thread pool, a GUI or service
+    worker): the same boundaries, the same final file"""
+    import threading
+    from astropy.table import Table
+    d = os.path.join(workdir, "thread")
+    os.makedirs(d, exist_ok=True)
+    spec = {"mode": "Diffuse", "optical": True, "radio": False, "spectrum": "mono", "n": 60, "seed": 5, "loge": 9.0}
+    path = os.path.join(d, "out.fits")
+    box = {}
+
+    def work():
+        try:
+            box["sim"] = run_compute(spec, path)
+        except BaseException as ex:  # noqa
+            box["exc"] = ex
+    th = threading.Thread(target=work)
+    th.start()
+    th.join()
+    ctx.case(("worker-thread",)); ctx.count("worker_thread_runs")
+    case = {"config": spec_key(spec), "seed": spec["seed"], "started_from": "a worker thread (threading.Thread)"}
+    if "exc" in box:
+        ctx.violation("compute", "raises-although-no-stage-failed", f"compute(write_stages=True) started from a worker thread raises {type(box['exc']).__name__}: {str(box['exc'])[:100]} although no stage failed", case)
+        return
+    try:
+        t = Table.read(path, format="fits")
+        if list(t.colnames) != list(box["sim"].colnames) or len(t) != len(box["sim"]):
+            ctx.violation("StagedWriter", "final-file-differs-from-table", "the file left by a run started from a worker thread does not hold the columns of the returned table", case)
+    except Exception as ex:  # noqa
+        ctx.violation("StagedWriter", "file-missing-at-stage-boundary", f"no readable file after a run started from a worker thread: {type(ex).__name__}", case)
+
+
 def model_selftests(ctx):
     """the model on hand-made operation lists (duplicate column name, meta overwrite)"""
     o = run_driver(["c17.run 1 - SIMTIME=i Ca=1,b=2 Mk=3 Ca=9 Cc=4"])[0]
@@ -629,6 +661,7 @@ def run(ctx: Ctx):
             writes_off(ctx, spec, wd)
     zero_survivor_runs(ctx, work)
     cli_fault_runs(ctx, work)
+    worker_thread_run(ctx, work)
     os.chdir(str(VERIF))
     shutil.rmtree(work, ignore_errors=True)
 
